@@ -118,6 +118,9 @@ def gen_pert(rng, cfg):
 def build(cfg, pert=None):
     import starsim as ss
     cfg = json.loads(json.dumps(cfg))
+    for n in cfg.get('networks', []):      # mixing pools serve the base's first disease, whatever is added to the list later
+        if n['type'] == 'agepools' and 'diseases' not in n and cfg.get('diseases'):
+            n['diseases'] = cfg['diseases'][0].get('name', cfg['diseases'][0]['type'])
     ei, ea, ec = [], [], []
     if cfg.get('interventions'):   # routine delivery windows must lie on the time grid
         cfg['interventions'] = [dict(i, start_year=cfg['start'], end_year=cfg['start'] + cfg['dur']) for i in cfg['interventions']]
@@ -451,7 +454,7 @@ def search_zoo(ctx):
                         reset_pars=(i % 3 == 0), in_pars=(i % 4 == 0), own_dt=None)
         if kind == 'extra_disease':
             pert.update(type=['sis', 'sir'][i % 2], name=['ghostdis', 'aaa', 'zzz'][i % 3], beta=0, first=(i % 2 == 0))
-            if not cfg['networks'] or any(n['type'] == 'agepools' for n in cfg['networks']) or any(isinstance(d.get('beta'), dict) for d in cfg['diseases']):
+            if not cfg['networks'] or any(isinstance(d.get('beta'), dict) for d in cfg['diseases']):
                 pert = dict(kind='ghost_analyzer', fams=['normal', 'expon'], name='ghost', second=False, hold_ref=True, reset_pars=False, in_pars=False, own_dt=None)
         try:
             msg = oracle(cfg, pert)
